@@ -41,6 +41,7 @@ func runC06(p *core.Prog, r *core.Report) {
 	c06R11(p, r, "C06.R11")
 	// head and get answer from the file as it is now (shared with C14.R9)
 	indexFreshRule(p, r, "C06.R12")
+	c06R13(p, r)
 }
 
 // c06R9: an entry without a name is not the entry of the empty tag. Where an entry's ref.name
@@ -1206,4 +1207,74 @@ func linkHelperSaysNoMore(p *core.Prog, ex *ssa.Extract) bool {
 		}
 	}
 	return true
+}
+
+// c06R13: "a push makes exactly that tag resolve to exactly that manifest". The layout's lookup and
+// its setter do not agree on what a reference names (the lookup lets a digest on the reference win
+// over its tag and stops at the first match; the setter keys on the tag and prunes duplicates), so
+// "the lookup already finds this digest" does not mean "the setter would change nothing". The entry
+// is set on every push of a tagged or top-level manifest.
+func c06R13(p *core.Prog, r *core.Report) {
+	const rule = "C06.R13"
+	r.Rule(rule, "a push always sets its index entry: in the layout's index updater the call of the index setter is not control-dependent on what the index lookup (indexGet) returns", 1)
+	ups := roleSet(p, ocidirRel, "OCIDir", "updateIndex")
+	n := 0
+	for _, fn := range sortedFuncs(ups) {
+		lab := labeler{}
+		core.Calls(fn, func(c ssa.CallInstruction) {
+			g := core.CalleeFn(c)
+			if g == nil || canon(g) != "indexSet" {
+				return
+			}
+			n++
+			bad := ""
+			var fromLookup func(v ssa.Value, d int, seen map[ssa.Value]bool) bool
+			fromLookup = func(v ssa.Value, d int, seen map[ssa.Value]bool) bool {
+				if v == nil || d > 8 || seen[v] {
+					return false
+				}
+				seen[v] = true
+				if call, ok := v.(*ssa.Call); ok {
+					if h := core.CalleeFn(call); h != nil && canon(h) == "indexGet" {
+						return true
+					}
+					return false
+				}
+				if al, ok := v.(*ssa.Alloc); ok {
+					for _, st := range core.StoresToCell(al) {
+						if fromLookup(st.Val, d+1, seen) {
+							return true
+						}
+					}
+					// a struct filled field by field from the lookup's result
+					for _, fv := range core.StoresToCellFields(al) {
+						if fromLookup(fv, d+1, seen) {
+							return true
+						}
+					}
+					return false
+				}
+				in, ok := v.(ssa.Instruction)
+				if !ok {
+					return false
+				}
+				for _, op := range in.Operands(nil) {
+					if op != nil && *op != nil && fromLookup(*op, d+1, seen) {
+						return true
+					}
+				}
+				return false
+			}
+			for _, ifi := range core.ControlDeps(c.(ssa.Instruction)) {
+				if fromLookup(ifi.Cond, 0, map[ssa.Value]bool{}) {
+					bad = p.Pos(ifi.Cond.Pos())
+				}
+			}
+			r.Check(bad == "", rule, p.FuncName(fn), lab.next("index entry set"), p.Pos(c.Pos()),
+				"whether the entry is set depends on the lookup at "+bad+": the lookup prefers a digest on the reference over its tag and stops at the first of several entries, so a push can return success without the tag being created or moved")
+		})
+	}
+	if n == 0 {
+		r.MissingAnchor(rule, "call of the index setter in the layout's index updater")
+	}
 }
